@@ -6,6 +6,7 @@ import EdzedModel.Basic.Val
 Line protocol of the interval model.
 
   interval parse <t|d|dt> <tree>      → ok <ranges> | err ValueError | err TypeError | unsupported
+  interval endpoints                  → the values of range_endpoints(), sorted, `,`-joined (`-` = none)
   interval str                        → s<hex of as_string()>            (of the last parsed interval)
   interval in <i.i.i…>                → b0 | b1                          (`x in interval`)
   interval td <tree|n> <tree|n> <tree|n>  → ok <times|n> <dates|n> <weekdays|n> | err … | unsupported
@@ -126,6 +127,15 @@ def handle (s : DState) : List String → DState × String
         optStr rangesStr cfg.times ++ " " ++ optStr rangesStr cfg.dates ++ " "
           ++ optStr (fun w => if w.isEmpty then "-" else epStr w) cfg.weekdays) (timeDateParse a b c))
     | _, _, _ => (s, "bad-op")
+  | ["endpoints"] =>
+    -- `range_endpoints()` is a set: printed sorted, each value once
+    match s.cur with
+    | some (_, l) =>
+      let ins (e : Ep) (acc : List Ep) : List Ep :=
+        if acc.contains e then acc else (acc.filter fun x => lt x e) ++ e :: (acc.filter fun x => lt e x)
+      let es := (rangeEndpoints l).foldl (fun acc e => ins e acc) []
+      (s, if es.isEmpty then "-" else ",".intercalate (es.map epStr))
+    | none => (s, "unsupported")
   | ["str"] =>
     match s.cur with
     | some (k, l) => (s, "s" ++ hexEncode (String.ofList (asString k l)))
